@@ -30,27 +30,32 @@ type verifV struct {
 var verifVS *verifV
 
 func verifStubUnmarshal(data []byte) (*document.Document, *document.ChipAuthEvidenceBundle, error) {
+	verifSerial()
 	if verifVS.decodeFails {
 		return nil, nil, errors.New("bad blob")
 	}
 	return verifVS.doc, verifVS.bundle, nil
 }
 func verifStubCam(doc *document.Document, ev *document.PaceCamEvidence) (*document.PaceCamResult, error) {
+	verifSerial()
 	verifVS.camCalls++
 	verifVS.camDoc, verifVS.camEv = doc, ev
 	return verifVS.camRes, verifVS.camErr
 }
 func verifStubCa(doc *document.Document, ev *document.ChipAuthEvidence) (*document.ChipAuthResult, error) {
+	verifSerial()
 	verifVS.caCalls++
 	verifVS.caDoc, verifVS.caEv = doc, ev
 	return verifVS.caRes, verifVS.caErr
 }
 func verifStubAa(doc *document.Document, ev *document.ActiveAuthEvidence) (*document.ActiveAuthResult, error) {
+	verifSerial()
 	verifVS.aaCalls++
 	verifVS.aaDoc, verifVS.aaEv = doc, ev
 	return verifVS.aaRes, verifVS.aaErr
 }
 func verifStubPA(doc *document.Document, pool cms.CertPool) (*document.PassiveAuthResult, error) {
+	verifSerial()
 	verifVS.paDoc = doc
 	return verifVS.paRes, verifVS.paErr
 }
@@ -130,4 +135,15 @@ func verifH_C14_verifier() {
 	}
 	verifAssert(s.PassiveAuthResult == w.paRes && s.PassiveAuthErr == w.paErr && w.paDoc == w.doc, "passive authentication over the imported document")
 	verifAssert((s.DocumentVerifyErr == nil) == (w.vErr == nil), "completeness verdict recorded")
+}
+
+// serialisation of whole calls (C20): when set, every stub that stands for chip I/O or a
+// verification step asserts that the object's mutex is held at that point, i.e. the whole
+// operation - not just the configuration accesses - is mutually exclusive on a shared instance.
+var verifSerialMu any
+
+func verifSerial() {
+	if verifSerialMu != nil {
+		verifAssert(verifHeld(verifSerialMu), "the operation runs while the object's mutex is held (calls on a shared instance are serialised)")
+	}
 }
